@@ -49,6 +49,14 @@ class AbstractSpecification(object):
     def spec(self, spec):
         self.ast.spec = spec
 
+    @property
+    def unit(self):
+        return self.ast.unit
+
+    @unit.setter
+    def unit(self, unit):
+        self.ast.unit = unit
+
     # forwarding to ast
     def add_var(self, var):
         self.ast.vars.add(var)
